@@ -142,8 +142,18 @@ class DataDir(object):
         return self._delete_files(filenames=filenames)
 
     def _check_writeprotected(self, filename, accessmode):
-        if accessmode != 'r' and filename in self._protectedpaths:
-            raise OSError(f'Cannot modify protected file "{filename}"')
+        if accessmode != 'r':
+            # compare normalized paths, the same file can be spelled in many
+            # ways ('./x', Path('x'), 'y/../x'); protected directories
+            # protect everything they contain
+            basepath = self._path.resolve()
+            filepath = (basepath / filename).resolve()
+            for protectedpath in self._protectedpaths:
+                protectedpath = (basepath / protectedpath).resolve()
+                if (filepath == protectedpath) or \
+                        (protectedpath in filepath.parents):
+                    raise OSError(f'Cannot modify protected file '
+                                  f'"{filename}"')
 
     # FIXME overwrite parameter?
     @contextmanager
